@@ -449,7 +449,7 @@ impl ImplWhereClause<'_, '_> {
                 );
 
                 if self.contains_async.0 {
-                    push_tokens!(stream, self.plus_send(), self.plus_sync());
+                    push_tokens!(stream, self.plus_sync());
                 }
                 push_tokens!(stream, self.plus_static());
             }
@@ -464,7 +464,7 @@ impl ImplWhereClause<'_, '_> {
                 );
 
                 if self.contains_async.0 {
-                    push_tokens!(stream, self.plus_send(), self.plus_sync());
+                    push_tokens!(stream, self.plus_sync());
                 }
                 push_tokens!(stream, self.plus_static());
             }
@@ -519,13 +519,6 @@ impl ImplWhereClause<'_, '_> {
         TokenPair(
             syn::token::Plus(self.span),
             syn::Lifetime::new("'static", self.span),
-        )
-    }
-
-    fn plus_send(&self) -> TokenPair<impl ToTokens, impl ToTokens> {
-        TokenPair(
-            syn::token::Plus(self.span),
-            CoreMarker("Send", self.span),
         )
     }
 
